@@ -148,7 +148,7 @@ func forgedFrameVsModel(c *Ctx, who string) {
 				break
 			}
 			m := randBytes(r, 1+r.Intn(60))
-			put(crSealFrame(ctlKey, ctr, m), len(m), k >= at) // behind the insertion nothing authenticates under the receiver's counter
+			put(crSealFrame(ctlKey, ctr, m), len(m), false) // behind the insertion the next genuine frame WOULD authenticate (the refused frame used no counter): the error must be final
 			ctr++
 			cs.Plain = append(cs.Plain, m...)
 		}
